@@ -13,9 +13,8 @@ from ..core import driver
 
 
 def _mk(case, ctx):
-    path = ctx.path()
-    gen.make_cooler(path, case["table"], case["px"], "symm")
-    return path
+    """URI of the cooler of the case: at the file root, or in the group case["at"] next to a decoy with other content."""
+    return gen.place(ctx.path(), case["table"], case["px"], "symm", at=case.get("at"))
 
 
 def _kwargs(o, chunk):
@@ -53,9 +52,11 @@ def bl_balance(case, ctx):
     import cooler
     import h5py
     path = _mk(case, ctx)
+    fp, grp = gen.split_uri(path)
     o = case["o"]
     clr = cooler.Cooler(path)
     stored_same = True
+    decoy_touched = False
     with warnings.catch_warnings():
         warnings.simplefilter("ignore")
         if case.get("via") == "cli":
@@ -79,20 +80,22 @@ def bl_balance(case, ctx):
             res = CliRunner().invoke(cli, args)
             if res.exit_code != 0:
                 raise res.exception if isinstance(res.exception, Exception) else RuntimeError(res.output[-300:])
-            with h5py.File(path, "r") as f:
-                bias = f["bins/weight"][:]
-                at = dict(f["bins/weight"].attrs)
+            with h5py.File(fp, "r") as f:
+                bias = f[grp]["bins/weight"][:]
+                at = dict(f[grp]["bins/weight"].attrs)
+                decoy_touched = grp != "/" and "weight" in f["bins"]
             stats = {"scale": at["scale"], "converged": at["converged"]}
         else:
             bias, stats = cooler.balance_cooler(clr, store=case.get("store", False), **_kwargs(o, case["chunk"]))
             if case.get("store"):
-                with h5py.File(path, "r") as f:
-                    st = f["bins/weight"][:]
+                with h5py.File(fp, "r") as f:
+                    st = f[grp]["bins/weight"][:] if "weight" in f[grp]["bins"] else np.array([])
+                    decoy_touched = grp != "/" and "weight" in f["bins"]
                 stored_same = bool(np.array_equal(st, bias, equal_nan=True))
     return {"nan": [bool(x) for x in np.isnan(bias)],
             "finite_pos": [bool(np.isfinite(x) and x > 0) for x in bias],
             "w": [_dyadic(x) for x in bias], "scale": _intlist(stats["scale"]),
-            "converged": [bool(x) for x in np.atleast_1d(stats["converged"])], "stored_same": stored_same}
+            "converged": [bool(x) for x in np.atleast_1d(stats["converged"])], "stored_same": stored_same and not decoy_touched}
 
 
 def _filters(o):
